@@ -33,7 +33,7 @@ Section OneRun.
     induction l as [|st tl IH]; intros b s k H Hi; [discriminate|].
     destruct k as [|k]; [left; reflexivity|]. cbn [firstn]. rewrite crun_cons.
     destruct Hi as (kk & sz & mt & Ht & Hb).
-    destruct st as [t|t|t|t n|t|t| |]; try destruct t; cbn [temp_tail] in H; try discriminate.
+    destruct st as [t|t|t|t n|t|t| | |]; try destruct t; cbn [temp_tail] in H; try discriminate.
     - (* SSetLen true *)
       assert (E : cstep_apply e now s (SSetLen true) = mk_cstate (cs_dest s) (CFile (se_content e) (kk && N.eqb sz (se_size e)) (se_size e) now)).
       { unfold cstep_apply, target, set_target. rewrite Ht. reflexivity. }
@@ -62,13 +62,21 @@ Section OneRun.
       { unfold cstep_apply. rewrite Ht. reflexivity. }
       rewrite E. right. destruct k as [|k]; cbn [firstn]; [cbn; rewrite !N.eqb_refl; split; reflexivity|].
       rewrite crun_cons. replace (firstn k []) with (@nil cstep) by (destruct k; reflexivity). cbn. rewrite !N.eqb_refl. split; reflexivity.
+    - (* SUtimeT :: SRename :: [] *)
+      destruct tl as [|st2 tl2]; [discriminate|]. destruct st2; try discriminate. destruct tl2; [|discriminate].
+      subst b. destruct (Hb eq_refl) as [-> ->].
+      assert (E : cstep_apply e now s SUtimeT = mk_cstate (cs_dest s) (CFile (se_content e) true (se_size e) (se_mtime e))).
+      { unfold cstep_apply. rewrite Ht. reflexivity. }
+      rewrite E. destruct k as [|k]; cbn [firstn]; [left; reflexivity|].
+      rewrite crun_cons. replace (firstn k []) with (@nil cstep) by (destruct k; reflexivity).
+      right. cbn. rewrite !N.eqb_refl. split; reflexivity.
   Qed.
 
   Lemma temp_tail_full : forall l b s, temp_tail b l = true -> tinv b (cs_temp s) -> crun e now l s = final_state e.
   Proof.
     induction l as [|st tl IH]; intros b s H Hi; [discriminate|]. rewrite crun_cons.
     destruct Hi as (kk & sz & mt & Ht & Hb).
-    destruct st as [t|t|t|t n|t|t| |]; try destruct t; cbn [temp_tail] in H; try discriminate.
+    destruct st as [t|t|t|t n|t|t| | |]; try destruct t; cbn [temp_tail] in H; try discriminate.
     - apply (IH b); [exact H|]. unfold cstep_apply, target, set_target. rewrite Ht. cbn [cs_temp].
       exists (kk && N.eqb sz (se_size e)), (se_size e), now. split; [reflexivity|]. intro Hbt. destruct (Hb Hbt) as [-> ->].
       rewrite N.eqb_refl. split; reflexivity.
@@ -82,6 +90,9 @@ Section OneRun.
       assert (E : cstep_apply e now s SRename = mk_cstate (CFile (se_content e) true (se_size e) mt) CAbsent).
       { unfold cstep_apply. rewrite Ht. reflexivity. }
       rewrite E. reflexivity.
+    - destruct tl as [|st2 tl2]; [discriminate|]. destruct st2; try discriminate. destruct tl2; [|discriminate].
+      subst b. destruct (Hb eq_refl) as [-> ->].
+      unfold crun. cbn [fold_left]. unfold cstep_apply at 2. rewrite Ht. cbn. reflexivity.
   Qed.
 
   (* after the working file has been created afresh *)
@@ -90,9 +101,9 @@ Section OneRun.
   Lemma temp_class_shape p : temp_class e p = true ->
     exists hd tl, p = hd ++ SOpen true :: tl /\ (hd = [] \/ hd = [SRemove true]) /\ temp_tail (N.eqb (se_size e) 0) tl = true.
   Proof.
-    destruct p as [|st p]; [discriminate|]. destruct st as [t|t|t|t n|t|t| |]; try destruct t; cbn [temp_class]; try discriminate.
+    destruct p as [|st p]; [discriminate|]. destruct st as [t|t|t|t n|t|t| | |]; try destruct t; cbn [temp_class]; try discriminate.
     - intro H. exists [], p. split; [reflexivity|]. split; [left; reflexivity | exact H].
-    - destruct p as [|st2 p]; [discriminate|]. destruct st2 as [t|t|t|t n|t|t| |]; try destruct t; try discriminate.
+    - destruct p as [|st2 p]; [discriminate|]. destruct st2 as [t|t|t|t n|t|t| | |]; try destruct t; try discriminate.
       intro H. exists [SRemove true], p. split; [reflexivity|]. split; [right; reflexivity | exact H].
   Qed.
 
@@ -133,7 +144,7 @@ Section OneRun.
     induction l as [|st tl IH]; intros b s k H Hi; [discriminate|].
     destruct k as [|k]; [split; [reflexivity | exists b; exact Hi]|]. cbn [firstn]. rewrite crun_cons.
     destruct Hi as (kk & sz & mt & Hd & Hb1 & Hb0).
-    destruct st as [t|t|t|t n|t|t| |]; try destruct t; cbn [inplace_tail] in H; try discriminate.
+    destruct st as [t|t|t|t n|t|t| | |]; try destruct t; cbn [inplace_tail] in H; try discriminate.
     - (* SWrite false n *)
       apply andb_prop in H. destruct H as [H Htl]. apply andb_prop in H. destruct H as [Hs Hn].
       apply negb_true_iff in Hs. subst b. apply N.ltb_lt in Hn. destruct (Hb0 eq_refl) as [-> Hsz].
@@ -159,7 +170,7 @@ Section OneRun.
   Proof.
     induction l as [|st tl IH]; intros b s H Hi; [discriminate|]. rewrite crun_cons.
     destruct Hi as (kk & sz & mt & Hd & Hb1 & Hb0).
-    destruct st as [t|t|t|t n|t|t| |]; try destruct t; cbn [inplace_tail] in H; try discriminate.
+    destruct st as [t|t|t|t n|t|t| | |]; try destruct t; cbn [inplace_tail] in H; try discriminate.
     - apply andb_prop in H. destruct H as [H Htl]. apply andb_prop in H. destruct H as [Hs Hn].
       apply negb_true_iff in Hs. subst b. apply N.ltb_lt in Hn. destruct (Hb0 eq_refl) as [-> Hsz].
       assert (E : cstep_apply e now s (SWrite false n) = mk_cstate (CFile (se_content e) false (N.max sz n) now) (cs_temp s)).
@@ -178,7 +189,7 @@ Section OneRun.
     cs_temp (crash_state e now p k s) = cs_temp s /\
     (k = 0 \/ exists b, iinv b (cs_dest (crash_state e now p k s))).
   Proof.
-    destruct p as [|st p]; [discriminate|]. destruct st as [t|t|t|t n|t|t| |]; try destruct t; cbn [inplace_class]; try discriminate.
+    destruct p as [|st p]; [discriminate|]. destruct st as [t|t|t|t n|t|t| | |]; try destruct t; cbn [inplace_class]; try discriminate.
     intro H. unfold crash_state. destruct k as [|k]; [split; [reflexivity | left; reflexivity]|]. cbn [firstn]. rewrite crun_cons.
     change (cstep_apply e now s (SOpen false)) with (after_open_dest s).
     destruct (inplace_tail_prefixes p _ (after_open_dest s) k H open_iinv) as [A B]. split; [exact A | right; exact B].
@@ -187,7 +198,7 @@ Section OneRun.
   Theorem inplace_class_full p s : inplace_class e p = true ->
     crun e now p s = mk_cstate (CFile (se_content e) true (se_size e) (se_mtime e)) (cs_temp s).
   Proof.
-    destruct p as [|st p]; [discriminate|]. destruct st as [t|t|t|t n|t|t| |]; try destruct t; cbn [inplace_class]; try discriminate.
+    destruct p as [|st p]; [discriminate|]. destruct st as [t|t|t|t n|t|t| | |]; try destruct t; cbn [inplace_class]; try discriminate.
     intro H. rewrite crun_cons. change (cstep_apply e now s (SOpen false)) with (after_open_dest s).
     apply (inplace_tail_full p _ (after_open_dest s) H). apply open_iinv.
   Qed.
